@@ -131,7 +131,7 @@ def whyStmt : Stmt → String
     let b := whyElifs elifs; if b != "" then b else whyStmts els
   | .switch hdr cs =>
     if !nameOK hdr.name then "switch header name " ++ hdr.name else if Beh.endsFlow hdr.name then "switch header ends flow"
-    else if countDefaults cs > 1 then "two defaults" else whyCases hdr.name cs
+    else if countDefaults cs > 1 then "two defaults" else whyCases hdr.name true cs
   | .forever body => whyStmts body
   | .while_ _ h body => if !ESV.Beh.isTest h.name then "while header" else whyStmts body
   | .for_ init h inc body =>
@@ -146,12 +146,12 @@ def whyElifs : Elifs → String
   | .cons _ hdrs body r =>
     if !hdrs.all (fun h => ESV.Beh.isTest h.name) then "elseif header" else
     let a := whyStmts body; if a != "" then a else whyElifs r
-def whyCases (sw : String) : Cases → String
+def whyCases (sw : String) (nf : Bool) : Cases → String
   | .nil => ""
   | .cons d name _ body r =>
     if !(d || (ESV.Beh.isTest name && ESV.Beh.isTest (caseName sw name))) then "case name " ++ name
-    else if loneExit body then "case block is a single break/continue/break_loop/jump"
-    else let a := whyStmts body; if a != "" then a else whyCases sw r
+    else if loneExit body && !d && !nf then "lone exit case block, fall-in possible"
+    else let a := whyStmts body; if a != "" then a else whyCases sw (if body.isNil then nf else endsFlowStmts body) r
 end
 
 def handle (op : String) (j : Json) : R Json := do
